@@ -28,6 +28,7 @@ type c08site struct {
 	Kind string `json:"kind"`
 	Loc  string `json:"loc"`
 	Func string `json:"func"`
+	Text string `json:"text"`
 }
 
 type c08extcall struct {
@@ -119,6 +120,50 @@ func c08diff(a, b trace.Result) string {
 		}
 	}
 	return strings.Join(out, "; ")
+}
+
+// c08diverge re-runs two secrets with full sequence recording and describes the first event at which they diverge.
+// The description (kind, function, source text of the site) is stable under line shifts and identifies the leak site.
+func c08diverge(run func([]byte), a, b []byte) string {
+	rec := func(s []byte) []uint64 {
+		trace.StartSeq()
+		vx.Try(func() { run(s) })
+		return trace.StopSeq()
+	}
+	sa, sb := rec(a), rec(b)
+	n := len(sa)
+	if len(sb) < n {
+		n = len(sb)
+	}
+	i := 0
+	for i < n && sa[i] == sb[i] {
+		i++
+	}
+	desc := func(seq []uint64, i int) string {
+		if i >= len(seq) {
+			return "end-of-trace"
+		}
+		// an index event is (site|2<<40) followed by the value; if we are on the value, step back to its site
+		ev := seq[i]
+		if i > 0 && seq[i-1]>>40 == 2 && ev>>40 != 2 && ev>>40 != 1 {
+			if _, isSite := c08sites[uint32(ev)]; !isSite || true {
+				ev = seq[i-1]
+			}
+		}
+		st, ok := c08sites[uint32(ev&0xffffffff)]
+		if !ok {
+			return "unknown-site"
+		}
+		return fmt.Sprintf("%s@%s[%s]", st.Kind, st.Func, st.Text)
+	}
+	da, db := desc(sa, i), desc(sb, i)
+	if da == db {
+		return da
+	}
+	if da > db {
+		da, db = db, da
+	}
+	return da + " | " + db
 }
 
 func c08groups() []c08group {
@@ -387,6 +432,14 @@ func c08groups() []c08group {
 		k := b32(shaped(z, 2, "c08kz"))
 		dk = append(dk, append(append([]byte{}, d...), dk[0][32:]...), append(append([]byte{}, dk[0][:32]...), k...))
 	}
+	// leading 0xFF bytes (1..3; four would exceed n) and single leading 0x00..0x80 bytes on k and on d
+	for _, pre := range [][]byte{{0xff}, {0xff, 0xff}, {0xff, 0xff, 0xff}, {0xfe}, {0x80}, {0x7f}, {0x01}} {
+		k := append([]byte{}, dk[1][32:]...)
+		copy(k, pre)
+		d := append([]byte{}, dk[2][:32]...)
+		copy(d, pre)
+		dk = append(dk, append(append([]byte{}, dk[0][:32]...), k...), append(append([]byte{}, d...), dk[0][32:]...))
+	}
 	eFixed := vx.Fill("c08e", 32)
 	add("SignHashed(d,k)", dk, func(s []byte) { sm2.SignHashed(stream(s[32:], s[32:]), s[:32], eFixed) })
 	add("GenerateKey(d)", dk, func(s []byte) { sm2.GenerateKey(io.MultiReader(stream(s[:32]))) })
@@ -438,7 +491,7 @@ func TestVX_C08(t *testing.T) {
 				b, _ := c08record(g.run, vx.UnHex(c.Secret), true)
 				r.Eval(2)
 				if a.Hash != b.Hash || a.Events != b.Events {
-					r.Violation("ct:trace-differs:"+g.name, fmt.Sprintf("%s: secrets %s and %s give different traces; first differing sites: %s", g.name, c.Other, c.Secret, c08diff(a, b)), c)
+					r.Violation("ct:trace-differs:"+g.name+":"+c08diverge(g.run, vx.UnHex(c.Other), vx.UnHex(c.Secret)), fmt.Sprintf("%s: secrets %s and %s give different traces; first differing sites: %s", g.name, c.Other, c.Secret, c08diff(a, b)), c)
 				}
 			}
 		}
@@ -471,7 +524,8 @@ func TestVX_C08(t *testing.T) {
 			}
 			distinct[res.Hash^res.Events<<48] = true
 			if res.Hash != ref.Hash || res.Events != ref.Events {
-				r.Violation("ct:trace-differs:"+g.name, fmt.Sprintf("%s: the executed blocks / indexed locations depend on the secret: %s vs %s; first differing sites: %s", g.name, g.secrets[0], s, c08diff(ref, res)), c08case{g.name, s, g.secrets[0]})
+				where := c08diverge(g.run, vx.UnHex(g.secrets[0]), sec)
+				r.Violation("ct:trace-differs:"+g.name+":"+where, fmt.Sprintf("%s: the executed blocks / indexed locations depend on the secret: %s vs %s; the traces first diverge at %s; sites with differing counts: %s", g.name, g.secrets[0], s, where, c08diff(ref, res)), c08case{g.name, s, g.secrets[0]})
 			}
 		}
 		r.Shape(g.name)
